@@ -236,7 +236,10 @@ def run(chk):
                 if status == 200 and op[0] in ('authenticate', 'refresh'):
                     bk = 'result'
                     prof = rng.choice([('PID%d' % k, 'Name%d' % k), ('PID0', 'Renamed%d' % k), ('PID0', 'Name0')])
-                    payload = {'accessToken': 'ACC%d_%d' % (n, k), 'clientToken': 'CLI%d' % (k % 2), 'selectedProfile': {'id': prof[0], 'name': prof[1]}, 'availableProfiles': []}
+                    sel = rng.choice([{'id': prof[0], 'name': prof[1]}, {'name': prof[1], 'id': prof[0]}, {'legacy': True, 'name': prof[1], 'properties': [], 'id': prof[0]}])
+                    payload = {'accessToken': 'ACC%d_%d' % (n, k), 'clientToken': 'CLI%d' % (k % 2), 'selectedProfile': sel, 'availableProfiles': []}
+                    if rng.random() < 0.3:
+                        payload = dict(reversed(list(payload.items())))          # JSON objects are unordered
                     mbody = [0, s_(payload['accessToken']), s_(payload['clientToken']), s_(prof[0]), s_(prof[1])]
                 else:
                     bk = rng.choice(sorted(BODIES)) if status != 200 else rng.choice(['empty', 'error'])
